@@ -28,9 +28,49 @@ def _ptr_parts(e, base_fields):
 
 def rule_G1(ctx):
     ctx.begin("G1", floor=4, what="parallel moves / growth / clearing of ln and ln_glob")
-    f = ctx.prog.func("lbuf_replace")
-    moves = {"ln": [], "ln_glob": []}
-    grow_copy = {"ln": [], "ln_glob": []}
+    f0 = ctx.prog.func("lbuf_replace")
+    # the growth may live in a private helper: take every function of lbuf.c that stores the ln
+    # pointer itself (S1 restricts who may) and judge moves/growth over them together
+    fs = [f0]
+    for g in ctx.prog.funcs.values():
+        if g.file == "lbuf.c" and g is not f0 and any(
+                lv_field(lv) and lv_field(lv)[0] == "lbuf" and lv_field(lv)[1] == "ln" and not lv_field(lv)[2]
+                and op == "=" for n, lv, op, rhs in stores(g.body)):
+            fs.append(g)
+    res = None
+    for f in fs:
+        res = _g1_one(ctx, f, f is f0, res)
+    moves, grow_copy, allocs, fshift = res
+    for kind, tab in (("shift", moves), ("growth copy", grow_copy)):
+        a = sorted(x[0] for x in tab["ln"])
+        b = sorted(x[0] for x in tab["ln_glob"])
+        if a == b and (a or kind == "growth copy"):
+            for sig, c, ff in tab["ln"]:
+                ctx.ok(ff.name, "%s of ln mirrored on ln_glob %s" % (kind, sig[1:]), loc=ff.loc(c))
+        elif a != b:
+            ff = (tab["ln"] or tab["ln_glob"])[0][2]
+            ctx.violation(ff.name, "%s mirrored on the mark array" % kind,
+                          "line table is moved as %s but the global-mark array as %s: marks no "
+                          "longer travel with their lines" % (a, b), ff.loc((tab["ln"] or tab["ln_glob"])[0][1]))
+    if not moves["ln"]:
+        ctx.inconclusive("lbuf_replace", "shift of the line table", "no block move on lb->ln recognised")
+    if len(allocs) == 2:
+        if repr(allocs["ln"][0]) == repr(allocs["ln_glob"][0]):
+            ctx.ok(allocs["ln"][2].name, "growth allocates both arrays with %r elements" % allocs["ln"][0])
+        else:
+            ctx.violation(allocs["ln"][2].name, "growth element counts",
+                          "ln gets %r elements, ln_glob %r" % (allocs["ln"][0], allocs["ln_glob"][0]),
+                          allocs["ln"][2].loc(allocs["ln_glob"][1]))
+    elif len(allocs) == 1:
+        ctx.violation("lbuf_replace", "growth of both arrays",
+                      "the growth path allocates only %s: the other array is not grown with it" % sorted(allocs))
+    else:
+        ctx.inconclusive("lbuf_replace", "growth of both arrays", "growth allocation not recognised")
+    _g1_clear(ctx, f0)
+
+
+def _g1_one(ctx, f, is_main, acc):
+    moves, grow_copy, allocs_acc, _ = acc or ({"ln": [], "ln_glob": []}, {"ln": [], "ln_glob": []}, {}, None)
     rec = ctx.prog.record("lbuf")
     esz = {}
     for fld in rec["fields"]:
@@ -61,40 +101,22 @@ def rule_G1(ctx):
         cnt = n.scale(1.0 / esz[fld]) if False else n.scale(__import__("fractions").Fraction(1, esz[fld]))
         sig = (c["fn"], repr(d[1]), repr(s[1]) if s else "?", repr(cnt))
         if d[0] in alias:
-            grow_copy[fld].append((sig, c))
+            grow_copy[fld].append((sig, c, f))
         else:
-            moves[fld].append((sig, c))
-    if not moves["ln"]:
-        raise AnalysisBroken("lbuf_replace: no block move on the line table")
-    for kind, tab in (("shift", moves), ("growth copy", grow_copy)):
-        a = sorted(x[0] for x in tab["ln"])
-        b = sorted(x[0] for x in tab["ln_glob"])
-        if a == b:
-            for sig, c in tab["ln"]:
-                ctx.ok("lbuf_replace", "%s of ln mirrored on ln_glob %s" % (kind, sig[1:]), loc=f.loc(c))
-        else:
-            ctx.violation("lbuf_replace", "%s mirrored on the mark array" % kind,
-                          "line table is moved as %s but the global-mark array as %s: marks no "
-                          "longer travel with their lines" % (a, b), f.loc(tab["ln"][0][1]) if tab["ln"] else "")
+            moves[fld].append((sig, c, f))
     # growth allocations use one element count
-    allocs = {}
+    allocs = allocs_acc
     for n in f.walk():
         if n["k"] == "var" and n.get("init") is not None and n["name"] in alias:
             m = strip_casts(n["init"])
             if is_call(m, "malloc"):
                 l = linearize(strip_casts(m["args"][0]))
                 if l is not None:
-                    allocs[alias[n["name"]]] = (l.scale(__import__("fractions").Fraction(1, esz[alias[n["name"]]])), n)
-    if len(allocs) == 2:
-        if repr(allocs["ln"][0]) == repr(allocs["ln_glob"][0]):
-            ctx.ok("lbuf_replace", "growth allocates both arrays with %r elements" % allocs["ln"][0])
-        else:
-            ctx.violation("lbuf_replace", "growth element counts",
-                          "ln gets %r elements, ln_glob %r" % (allocs["ln"][0], allocs["ln_glob"][0]),
-                          f.loc(allocs["ln_glob"][1]))
-    else:
-        ctx.violation("lbuf_replace", "growth of both arrays",
-                      "the growth path does not allocate both ln and ln_glob (%s)" % sorted(allocs))
+                    allocs[alias[n["name"]]] = (l.scale(__import__("fractions").Fraction(1, esz[alias[n["name"]]])), n, f)
+    return moves, grow_copy, allocs, None
+
+
+def _g1_clear(ctx, f):
     # new lines start unmarked: ln_glob[pos + i] = 0 for i in [n_del, n_ins)
     pn = [p["name"] for p in f.params]
     pos, n_del = pn[2], pn[3]
@@ -188,18 +210,34 @@ def rule_G2(ctx):
         beg, end = rv
         okset = False
         for lp in f.walk():
-            if lp["k"] == "for" and any(True for _ in calls_in(lp["body"], "lbuf_globset")):
-                ik, ck = key(lp["init"]), key(lp["c"])
-                if ik.endswith("=(%s+1))" % beg) and ck.endswith("<%s)" % end):
-                    okset = True
+            if lp["k"] in ("for", "while") and any(True for _ in calls_in(lp["body"], "lbuf_globset")):
+                gs = next(calls_in(lp["body"], "lbuf_globset"))
+                iv = key(strip_casts(gs["args"][1]))
+                ck = key(lp["c"])
+                if lp["k"] == "for" and lp.get("init") is not None:
+                    ik = key(lp["init"])
                 else:
+                    # the last store to the index that dominates the loop
+                    inits = [n_ for n_, lv_, op_, r_ in stores(f.body)
+                             if lv_["k"] == "ref" and lv_["name"] == iv and op_ == "=" and
+                             f.cfg.dominates(n_, lp["c"]) and not any(x["id"] == n_["id"] for x in walk(lp))]
+                    ik = key(inits[-1]) if inits else ""
+                steps = [n_ for n_, lv_, op_, r_ in stores(lp.get("inc") or lp["body"])
+                         if lv_["k"] == "ref" and lv_["name"] == iv]
+                if lp["k"] == "while":
+                    steps = [n_ for n_, lv_, op_, r_ in stores(lp["body"]) if lv_["k"] == "ref" and lv_["name"] == iv]
+                step_ok = len(steps) == 1 and (steps[0].get("op") in ("post++", "pre++") or (
+                    steps[0].get("op") == "+=" and cval(steps[0]["r"]) == 1))
+                if ik.endswith("=(%s+1))" % beg) and ck in ("(%s<%s)" % (iv, end), "(%s>%s)" % (end, iv)) and step_ok:
+                    okset = True
+                elif ik and step_ok:
                     ctx.violation("ec_glob", "lines of the range are marked",
-                                  "marking loop is for(%s; %s), expected (beg, end)" % (ik, ck), f.loc(lp))
+                                  "marking loop runs from `%s` while `%s`, expected the open range (beg, end)" % (ik, ck), f.loc(lp))
                     okset = None
         if okset:
             ctx.ok("ec_glob", "lines beg+1 .. end-1 are marked, the visit starts at beg")
         elif okset is False:
-            ctx.violation("ec_glob", "lines of the range are marked", "no marking loop")
+            ctx.inconclusive("ec_glob", "lines of the range are marked", "marking loop not recognised")
     # set / get use the same bit
     gs, gg = prog.func("lbuf_globset"), prog.func("lbuf_globget")
 
